@@ -76,6 +76,8 @@ enum FuncKind {
     },
     TaskBlock {
         task_block: Rc<Expr>,
+        capture_types: Vec<SolvedType>,
+        capture_types_concrete: Vec<SolvedType>,
     },
     IntrinsicWrapper(IntrinsicOperation, AstNode),
     ForeignFunctionWrapper {
@@ -443,21 +445,21 @@ impl Translator {
                         }
                         FuncKind::TaskBlock {
                             task_block: e,
-                            // capture_types,
-                            // capture_types_concrete,
+                            capture_types,
+                            capture_types_concrete,
                         } => {
                             let ExprKind::TaskBlock(body) = &*e.kind else { unreachable!() };
 
                             let out_ty = self.statics.solution_of_node(e.node()).unwrap();
                             let func_ty = SolvedType::Function(vec![], out_ty.into());
                             let mono_for_lambda = MonomorphEnv::empty();
-                            // if capture_types.iter().any(|ty| ty.is_overloaded()) {
-                            //     for (overloaded_ty, ty_concrete) in
-                            //         capture_types.iter().zip(capture_types_concrete.iter())
-                            //     {
-                            //         mono_for_lambda.update(overloaded_ty, ty_concrete);
-                            //     }
-                            // }
+                            if capture_types.iter().any(|ty| ty.is_overloaded()) {
+                                for (overloaded_ty, ty_concrete) in
+                                    capture_types.iter().zip(capture_types_concrete.iter())
+                                {
+                                    mono_for_lambda.update(overloaded_ty, ty_concrete);
+                                }
+                            }
                             self.translate_func_body_helper(
                                 st,
                                 mono_for_lambda,
@@ -1125,10 +1127,23 @@ impl Translator {
 
                 let (_, captures, _locals) =
                     self.calculate_args_captures_locals(&overload_ty, &[], body, mono);
+                // as for a lambda: one body per instantiation of the generic function around it
+                let (_, outer_variables, _) =
+                    self.calculate_args_captures_locals(&None, &[], body, &MonomorphEnv::empty());
 
                 let desc = FuncDesc {
                     kind: FuncKind::TaskBlock {
                         task_block: expr.clone(),
+                        capture_types: outer_variables
+                            .iter()
+                            .cloned()
+                            .map(|capture| self.statics.solution_of_node(capture).unwrap())
+                            .collect(),
+                        capture_types_concrete: outer_variables
+                            .iter()
+                            .cloned()
+                            .map(|capture| self.get_ty(mono, capture).unwrap())
+                            .collect(),
                     },
                     overload_ty: overload_ty.clone(),
                 };
@@ -2680,7 +2695,8 @@ impl Translator {
                 st.funcs_to_generate.push(desc.clone());
                 // a lambda whose own type is not generic still has one body per instantiation of
                 // the generic function around it
-                let instantiated_captures = matches!(&desc.kind, FuncKind::AnonymousFunc { capture_types, .. }
+                let instantiated_captures = matches!(&desc.kind,
+                    FuncKind::AnonymousFunc { capture_types, .. } | FuncKind::TaskBlock { capture_types, .. }
                     if capture_types.iter().any(|ty| ty.is_overloaded()));
                 let label = if desc.overload_ty.is_none() && !instantiated_captures {
                     func_name.clone()
@@ -2693,6 +2709,10 @@ impl Translator {
                         }
                     };
                     if let FuncKind::AnonymousFunc {
+                        capture_types_concrete,
+                        ..
+                    }
+                    | FuncKind::TaskBlock {
                         capture_types_concrete,
                         ..
                     } = desc.kind
